@@ -90,7 +90,12 @@ void vp_short()
 void vp_writer2()
 {
     auto w = g_l->lock_write();
-#ifdef W2_EMPLACE
+#if defined(W2_ERASE_FIRST)
+    auto it = w->begin();            // both writers may hold an iterator to the same element: erasing it twice must be harmless
+    int victim = *it;
+    vp_gset(6, victim);
+    w->erase(it);
+#elif defined(W2_EMPLACE)
     w->emplace_front(5);
 #else
     w->push_back(40);
@@ -111,6 +116,7 @@ void vp_final()
         int v = *it;
         vp_assert(v > prev, 1210);
         vp_assert(v != erased, 1211);
+        vp_assert(vp_g(6) == 0 || v != vp_g(6), 1213);
         prev = v;
         cnt++;
         sum += v;
